@@ -49,6 +49,9 @@ static std::vector<Script> scripts(int threads) {
         {"D6-clearhash-newgame-between", {H1, th, "position startpos", "go depth 3", "@await bestmove", "setoption name Clear Hash", "ucinewgame", "position startpos moves d2d4", "go depth 3", "@await bestmove", "quit"}},
         {"D7-threads-change-between", {H1, th, "position startpos", "go depth 3", "@await bestmove", "setoption name Threads value 3", "position startpos moves d2d4 d7d5", "go depth 3", "@await bestmove", "quit"}},
         {"D8-stop-mid-search", {H1, th, "position startpos", "go depth 30", "@sleep 30", "stop", "@await bestmove", "quit"}},
+        // the worker tree changes shape when the thread count crosses 6 (helpers get helpers of their own): slots are replaced, not only appended
+        {"S16-threads-8-to-6", {H1, "setoption name Threads value 8", W1, "go depth 1", "@await bestmove", "setoption name Threads value 6", PW, "go depth 1", "@await bestmove", "quit"}},
+        {"S17-threads-2-to-7", {H1, "setoption name Threads value 2", PW, "go depth 1", "@await bestmove", "setoption name Threads value 7", PB, "go depth 2", "@await bestmove", "quit"}},
         {"S13-stop-after-finished", {H1, th, W1, "go depth 1", "@await bestmove", "stop", "isready", "@await readyok", PB, "go depth 1", "@await bestmove", "quit"}},
     };
 }
@@ -62,7 +65,15 @@ static bool FREE = false;     // free-running complement: threads are not schedu
 static std::function<void()> childBody;   // alternative child body (worker-pool scenarios)
 
 /** One execution of `script` following the schedule prefix `choices`. */
-static ses::Transcript runScheduled(const std::vector<std::string>& script, const std::vector<int>& choices, int timeoutS = 60) {
+static ses::Transcript runScheduledOnce(const std::vector<std::string>& script, const std::vector<int>& choices, int timeoutS);
+/** Executions are deterministic, so a wall-clock limit can only be hit because the machine is slow (or the token holder is blocked outside
+ *  the scheduler): re-run alone with a ten times longer limit before believing it. */
+static ses::Transcript runScheduled(const std::vector<std::string>& script, const std::vector<int>& choices, int timeoutS = 120) {
+    ses::Transcript t = runScheduledOnce(script, choices, timeoutS);
+    if (t.timedOut) { R.count("reruns_after_wall_clock_limit"); t = runScheduledOnce(script, choices, timeoutS * 10); }
+    return t;
+}
+static ses::Transcript runScheduledOnce(const std::vector<std::string>& script, const std::vector<int>& choices, int timeoutS) {
     ses::Transcript t;
     int pfd[2], efd[2];
     if (pipe(pfd) != 0 || pipe(efd) != 0) { t.exitStatus = -1; return t; }
@@ -226,7 +237,7 @@ int main(int argc, char** argv) {
     if (w.args.has("dump")) {
         // debugging aid: run the default schedule of one script twice and print the (thread, op, options) sequences
         for (int th : thr) for (auto& sc : scripts(th)) {
-            if (only.empty() ? sc.name[0] == 'D' : (";" + only + ";").find(";" + sc.name.substr(0, sc.name.find('-')) + ";") == std::string::npos) continue;
+            if (only.empty() ? (sc.name[0] == 'D' || sc.name == "S16-threads-8-to-6" || sc.name == "S17-threads-2-to-7") : (";" + only + ";").find(";" + sc.name.substr(0, sc.name.find('-')) + ";") == std::string::npos) continue;
             for (int k = 0; k < 2; k++) {
                 ses::Transcript t = runScheduled(sc.lines, parseChoices(w.args.get("choices", "")));
                 std::string f = w.args.get("dump") + "." + std::to_string(k);
@@ -244,7 +255,7 @@ int main(int argc, char** argv) {
         FREE = true;
         int reps = (int)w.args.getInt("reps", 2); unsigned long long id = 0;
         for (int th : thr) for (auto& sc : scripts(th)) {
-            if (only.empty() ? sc.name[0] == 'D' : (";" + only + ";").find(";" + sc.name.substr(0, sc.name.find('-')) + ";") == std::string::npos) continue;
+            if (only.empty() ? (sc.name[0] == 'D' || sc.name == "S16-threads-8-to-6" || sc.name == "S17-threads-2-to-7") : (";" + only + ";").find(";" + sc.name.substr(0, sc.name.find('-')) + ";") == std::string::npos) continue;
             for (int r = 0; r < reps; r++) { if (!w.mine(id++)) continue; W->crumb("free " + sc.name); ses::Transcript t = runScheduled(sc.lines, {}, 120); sharedTrace->fingerprint = id; judge(sc, th, {}, t); }
         }
         R.count("evaluations", R.counters["schedules"]); w.finish(R); return 0;
@@ -280,7 +291,7 @@ int main(int argc, char** argv) {
     }
     unsigned long long workId = 0;
     for (int th : thr) for (auto& sc : scripts(th)) {
-        if (only.empty() ? sc.name[0] == 'D' : (";" + only + ";").find(";" + sc.name.substr(0, sc.name.find('-')) + ";") == std::string::npos) continue;
+        if (only.empty() ? (sc.name[0] == 'D' || sc.name == "S16-threads-8-to-6" || sc.name == "S17-threads-2-to-7") : (";" + only + ";").find(";" + sc.name.substr(0, sc.name.find('-')) + ";") == std::string::npos) continue;
         explore(sc, th, bound, workId);
         if (!R.exhaustive) break;
         if (R.samples.size() < 3) R.sampleStr(sc.name + " threads=" + std::to_string(th) + " points(default)=" + std::to_string(sharedTrace->nPoints));
